@@ -318,13 +318,16 @@ func removeCfgFiles() {
 	}
 }
 
-var theLinter = linter.New(
-	keywords.NewKeywordCaseRule(keywords.CaseUpper),
-	whitespace.NewTrailingWhitespaceRule(),
-	whitespace.NewLongLinesRule(80),
-	whitespace.NewMixedIndentationRule(),
-	whitespace.NewRedundantWhitespaceRule(),
-)
+// every call uses its own linter instance (the property gives each goroutine its own instances)
+func newLinter() *linter.Linter {
+	return linter.New(
+		keywords.NewKeywordCaseRule(keywords.CaseUpper),
+		whitespace.NewTrailingWhitespaceRule(),
+		whitespace.NewLongLinesRule(80),
+		whitespace.NewMixedIndentationRule(),
+		whitespace.NewRedundantWhitespaceRule(),
+	)
+}
 
 // runOp executes one public operation and returns its canonical, comparable result
 func runOp(op string, sql string, gid int) (res string) {
@@ -384,7 +387,7 @@ func runOp(op string, sql string, gid int) (res string) {
 		sort.Strings(parts)
 		return strings.Join(parts, ",")
 	case "lint":
-		r := theLinter.LintString(sql, "x.sql")
+		r := newLinter().LintString(sql, "x.sql")
 		var parts []string
 		for _, v := range r.Violations {
 			parts = append(parts, fmt.Sprintf("%s@%d.%d", v.Rule, v.Location.Line, v.Location.Column))
